@@ -294,7 +294,7 @@ impl Stake {
             2 => (user, Op::BondTwoCoins { amount: 1 + rng.below(100) as u128 }),
             3 => (user, Op::BondNoFunds),
             4 => {
-                if matches!(w.tok, Tok::Cw20(_)) && rng.chance(1, 2) {
+                if rng.chance(1, 2) {
                     (user, Op::BondNativeNamedLikeToken { amount: 1 + rng.below(100) as u128 })
                 } else {
                     (user, Op::BondOtherCw20 { amount: 1 + rng.below(100) as u128 })
@@ -375,7 +375,8 @@ impl Stake {
             Op::BondNativeNamedLikeToken { amount } => {
                 let d = match &w.tok {
                     Tok::Cw20(a) => a.to_string(),
-                    Tok::Native => OTHER_DENOM.to_string(),
+                    // a different bank token whose name differs from the staking denom in letter case only
+                    Tok::Native => if *amount % 2 == 0 { STAKE_DENOM.to_uppercase() } else { "Ustake".to_string() },
                 };
                 w.c.fund(sender, *amount, &d);
                 w.c.exec(sender, &st, &ExecuteMsg::Bond {}, &[coin(*amount, d)])
